@@ -78,7 +78,7 @@ def env_types(fi):
 def gstep_shallow(ctx):
     def mk():
         fi = ctx.repo.func(ENV_MOD, "NASimEnv.generative_step")
-        if len(fi.params) != 3:
+        if len(fi.params) < 3:
             raise AnalysisError("generative_step no longer takes (self, state, action)")
         pt = {fi.params[0]: "NASimEnv", fi.params[1]: "State"}
         return Run(ctx, ENV_MOD, "NASimEnv.generative_step", pt, no_inline=(PERFORM, GET_OBS, GOAL))
